@@ -5,14 +5,19 @@ From XV Require Import lib.Bytes lib.Lts gen.SessClose C10.Model.
 Definition holds (s : state) (i : nat) : bool :=
   match o_lock (s_o s) with Some j => Nat.eqb j i | None => false end.
 
-(* the wire has at most one closing tag, it is the last item; the bit is set
-   exactly when the tag is there or still owed by the call that set the bit;
-   the encoder buffer never holds one *)
+(* the wire has at most one closing tag and it is the last item; the bit is set
+   exactly when the tag has been attempted or is still owed by the call that
+   set the bit; there is never more than one attempt; the attempt put the tag
+   on the wire unless the connection refused it; the encoder buffer never
+   holds a tag *)
+Definition tag_last (w : list item) : Prop :=
+  ~ In IClose w \/ exists pre, w = pre ++ [IClose] /\ ~ In IClose pre.
+
 Definition wire_ok (o : outg) : Prop :=
-  (o_cl o = false -> ~ In IClose (o_wire o) /\ o_pend o = false) /\
+  (o_cl o = false -> ~ In IClose (o_wire o) /\ o_pend o = false /\ o_att o = 0) /\
   (o_cl o = true ->
-     if o_pend o then ~ In IClose (o_wire o)
-     else exists pre, o_wire o = pre ++ [IClose] /\ ~ In IClose pre) /\
+     if o_pend o then ~ In IClose (o_wire o) /\ o_att o = 0
+     else o_att o = 1 /\ tag_last (o_wire o) /\ (o_wfail o = false -> In IClose (o_wire o))) /\
   ~ In IClose (o_buf o).
 
 (* every actor's remaining code respects the lock discipline, and an actor that
@@ -45,7 +50,7 @@ Qed.
 
 Lemma safe_programs : forall k, safe false false (prog_of k) = true.
 Proof.
-  destruct k as [|n|n|n|n|n|m|j|evs| | |b]; try reflexivity.
+  destruct k as [|n|n|n|n|n|m|j|evs| | |b|]; try reflexivity.
   - cbn [prog_of]. induction evs as [|e evs IH]; [reflexivity|exact IH].
 Qed.
 
@@ -58,7 +63,7 @@ Proof. destruct c; reflexivity. Qed.
 Lemma INV_init : forall ds ks, INV (init ds ks).
 Proof.
   intros ds ks. split.
-  - cbn. split; [intros _; split; [intros []|reflexivity]|]. split; [discriminate|intros []].
+  - cbn. split; [intros _; split; [intros []|split; reflexivity]|]. split; [discriminate|intros []].
   - intro i. unfold actor_ok, holds. cbn.
     destruct (nth_error ks i) as [k|]; cbn.
     + split; [apply safe_programs|discriminate].
@@ -119,12 +124,13 @@ Lemma INV_other_out : forall s i a' o',
   INV s ->
   o_lock o' = o_lock (s_o s) -> o_cl o' = o_cl (s_o s) ->
   o_buf o' = o_buf (s_o s) -> o_wire o' = o_wire (s_o s) -> o_pend o' = o_pend (s_o s) ->
+  o_att o' = o_att (s_o s) -> o_wfail o' = o_wfail (s_o s) ->
   safe (holds s i) (a_chk a') (a_code a') = true ->
   (a_chk a' = true -> a_chk (s_a s i) = true) ->
   forall ig, INV (mkS o' ig (upd (s_a s) i a')).
 Proof.
-  intros s i a' o' [Hw Ha] Hl Hc Hb Hwi Hp Hs Hch ig. split.
-  - cbn [s_o]. unfold wire_ok in *. rewrite Hc, Hb, Hwi, Hp. exact Hw.
+  intros s i a' o' [Hw Ha] Hl Hc Hb Hwi Hp Hat Hwf Hs Hch ig. split.
+  - cbn [s_o]. unfold wire_ok in *. rewrite Hc, Hb, Hwi, Hp, Hat, Hwf. exact Hw.
   - intro j. unfold actor_ok, holds. cbn [s_o s_a]. rewrite Hl, Hc.
     destruct (Nat.eq_dec j i) as [->|Hn].
     + rewrite upd_same. split; [exact Hs|]. intro H. exact (proj2 (Ha i) (Hch H)).
@@ -140,8 +146,8 @@ Qed.
 
 Lemma wire_ok_flush o : wire_ok o -> o_cl o = false -> wire_ok (o_flush o).
 Proof.
-  intros (H1 & H2 & H3) Hc. destruct (H1 Hc) as [Hw Hp]. unfold wire_ok, o_flush. cbn. split; [|split].
-  - intros _. split; [|exact Hp]. intro H. apply in_app_or in H. destruct H as [H|H]; [exact (Hw H)|exact (H3 H)].
+  intros (H1 & H2 & H3) Hc. destruct (H1 Hc) as (Hw & Hp & Ha). unfold wire_ok, o_flush. cbn. split; [|split].
+  - intros _. split; [|split; assumption]. intro H. apply in_app_or in H. destruct H as [H|H]; [exact (Hw H)|exact (H3 H)].
   - intro H. rewrite Hc in H. discriminate.
   - intros [].
 Qed.
@@ -150,18 +156,21 @@ Lemma wire_ok_mark o : wire_ok o -> wire_ok (o_mark o).
 Proof.
   intros (H1 & H2 & H3). unfold o_mark. destruct (o_cl o) eqn:Hc.
   - unfold wire_ok. rewrite Hc. split; [exact H1|]. split; [exact H2|exact H3].
-  - unfold wire_ok. cbn. split; [discriminate|]. split; [|exact H3].
-    intros _. exact (proj1 (H1 eq_refl)).
+  - destruct (H1 eq_refl) as (Hw & Hp & Ha).
+    unfold wire_ok. cbn. split; [discriminate|]. split; [|exact H3]. intros _. split; assumption.
 Qed.
 
 Lemma wire_ok_writetag o : wire_ok o -> wire_ok (o_writetag o).
 Proof.
   intros (H1 & H2 & H3). unfold o_writetag. destruct (o_pend o) eqn:Hp.
   - destruct (o_cl o) eqn:Hc.
-    + specialize (H2 eq_refl).
-      unfold wire_ok. cbn [o_cl o_pend o_wire o_buf]. split; [intro E; congruence|]. split; [|exact H3].
-      intros _. exists (o_wire o). split; [reflexivity|exact H2].
-    + destruct (H1 eq_refl) as [_ E]. congruence.
+    + specialize (H2 eq_refl). destruct H2 as [Hw Ha].
+      unfold wire_ok. cbn [o_cl o_pend o_wire o_buf o_att o_wfail]. split; [intro E; congruence|]. split; [|exact H3].
+      intros _. rewrite Ha. split; [reflexivity|]. destruct (o_wfail o) eqn:Hf.
+      * split; [left; exact Hw|discriminate].
+      * split; [right; exists (o_wire o); split; [reflexivity|exact Hw]|].
+        intros _. apply in_or_app. right. left. reflexivity.
+    + destruct (H1 eq_refl) as (_ & E & _). congruence.
   - unfold wire_ok. rewrite Hp. split; [exact H1|]. split; [exact H2|exact H3].
 Qed.
 
@@ -170,6 +179,13 @@ Proof. intro H. exact H. Qed.
 
 Lemma wire_ok_setrdy o b : wire_ok o -> wire_ok (o_setrdy o b).
 Proof. intro H. exact H. Qed.
+
+Lemma wire_ok_setfault o : wire_ok o -> wire_ok (o_setfault o).
+Proof.
+  intros (H1 & H2 & H3). unfold wire_ok, o_setfault. cbn. split; [exact H1|]. split; [|exact H3].
+  intro Hc. specialize (H2 Hc). destruct (o_pend o); [exact H2|].
+  destruct H2 as (A & B & _). split; [exact A|]. split; [exact B|discriminate].
+Qed.
 
 Lemma o_mark_cl o : o_cl (o_mark o) = true.
 Proof. unfold o_mark. destruct (o_cl o) eqn:E; [exact E|reflexivity]. Qed.
@@ -205,7 +221,7 @@ Lemma safe_test h c k : safe h c (OTest :: k) = true -> h = true /\ has_unlock k
 Proof. safe_inv. Qed.
 Lemma safe_mark h c k : safe h c (OMark :: k) = true -> h = true /\ safe h false k = true.
 Proof. safe_inv. Qed.
-Lemma safe_writetag h c k : safe h c (OWriteTag :: k) = true -> h = true /\ safe h c k = true.
+Lemma safe_writetag h c r k : safe h c (OWriteTag r :: k) = true -> h = true /\ safe h c k = true.
 Proof. safe_inv. Qed.
 Lemma safe_ret h c k : safe h c (ORet :: k) = true -> h = false /\ safe h c k = true.
 Proof. safe_inv. Qed.
@@ -214,6 +230,8 @@ Proof. safe_inv. Qed.
 Lemma safe_sunlock h c k : safe h c (OSUnlock :: k) = true -> h = false /\ safe h c k = true.
 Proof. safe_inv. Qed.
 Lemma safe_stall h c b k : safe h c (OStall b :: k) = true -> h = false /\ safe h c k = true.
+Proof. safe_inv. Qed.
+Lemma safe_fault h c k : safe h c (OFault :: k) = true -> h = false /\ safe h c k = true.
 Proof. safe_inv. Qed.
 Lemma safe_fire h c j k : safe h c (OFire j :: k) = true -> h = false /\ safe h c k = true.
 Proof. safe_inv. Qed.
@@ -309,11 +327,15 @@ Proof.
     + discriminate.
   - (* OWriteTag *)
     injection Hstep as <-. apply safe_writetag in Hsafe. destruct Hsafe as (Hh & Hk).
-    apply (INV_holder s i _ _ HI Hh); cbn.
-    + apply o_writetag_lock.
-    + apply wire_ok_writetag. exact Hw.
-    + rewrite Hh in Hk. exact Hk.
-    + intro Hc. rewrite o_writetag_cl. exact (proj2 (Hchk Hc)).
+    assert (Ha' : forall a', a_code a' = k -> a_chk a' = a_chk (s_a s i) ->
+              INV (mkS (o_writetag (s_o s)) (s_i s) (upd (s_a s) i a'))).
+    { intros a' E1 E2. apply (INV_holder s i _ _ HI Hh).
+      - apply o_writetag_lock.
+      - apply wire_ok_writetag. exact Hw.
+      - rewrite E1, E2. rewrite Hh in Hk. exact Hk.
+      - rewrite E2. intro Hc. rewrite o_writetag_cl. exact (proj2 (Hchk Hc)). }
+    destruct (o_pend (s_o s) && o_wfail (s_o s)); [destruct rep|]; apply Ha'; try reflexivity;
+      unfold first_err; destruct (a_e (set_code (s_a s i) k)); reflexivity.
   - (* OSLock *)
     destruct (o_sl (s_o s)); [discriminate|]. injection Hstep as <-.
     apply safe_slock in Hsafe. apply (INV_other_out s i _ _ HI); cbn; auto. exact (proj2 Hsafe).
@@ -323,6 +345,13 @@ Proof.
   - (* OStall *)
     injection Hstep as <-. apply safe_stall in Hsafe.
     apply (INV_other_out s i _ _ HI); cbn; auto. exact (proj2 Hsafe).
+  - (* OFault *)
+    injection Hstep as <-. apply safe_fault in Hsafe.
+    destruct HI as [Hw0 Ha0]. split; [apply wire_ok_setfault; exact Hw0|].
+    intro j. unfold actor_ok, holds. cbn [s_o s_a o_setfault o_lock o_cl].
+    destruct (Nat.eq_dec j i) as [->|Hn].
+    + rewrite upd_same. cbn. split; [exact (proj2 Hsafe)|exact Hchk].
+    + rewrite upd_other by exact Hn. exact (Ha0 j).
   - (* ORet *)
     injection Hstep as <-. apply safe_ret in Hsafe. destruct Hsafe as (Hh & Hk).
     apply INV_local; [exact HI|exact Hk|cbn; auto].
